@@ -111,6 +111,11 @@ def workload(rng, n, R=None):
         else:
             inv = inv_en if lang == 'en' else inv_ja
             x, y = rng.choice(inv), rng.choice(inv)
+        if lang == 'en' and rng.random() < 0.03:
+            # the one listed pair of backward application (S[dcl] + S[em]\\S[em]) and its neighbourhood: any left input, and
+            # S[dcl] against any right input
+            em = ('F', ('A', 'S', ('U', 'em')), '\\', ('A', 'S', ('U', 'em')))
+            x, y = (x, em) if rng.random() < 0.7 else (('A', 'S', ('U', 'dcl')), y)
         out.append((lang, x, y))
         k = rng.random()
         if lang == 'en' and k < 0.15 and has_var(x, y):
